@@ -218,3 +218,37 @@ def vals_json(ob):
 
 def vals_from_json(vs):
     return [NP if v == "__NotPassed__" else v for v in vs]
+
+
+# ---------------------------------------------------------------------------------------------
+# element trees given directly (DSL): Model/RunElem.v
+# ---------------------------------------------------------------------------------------------
+def observe_elem(elem, values):
+    """-> list of (value|NP, canonical outcome) and the raw (tag, result) list"""
+    vals, raw = [], []
+    for v in values:
+        tag, r = impl_call(elem, v)
+        raw.append((tag, r))
+        if tag == "ok":
+            vals.append((v, ["ok", canon_result(r)]))
+        else:
+            vals.append((v, [tag]))
+    return vals, raw
+
+
+def cq_ecase(tables_src, elem, vals_obs):
+    """tables_src: any JSON-like structure holding the patterns/formats/strings in play (a spec doc or schema)."""
+    from canon import cq_elem
+    values = [v for v, _ in vals_obs]
+    ret, strs = regex_table(tables_src, values)
+    fmt = format_table(tables_src, strs)
+    return "(mkECase %s %s %s %s)" % (
+        cq_list(["(%s, %s)" % (cq_str(p), cq_list([cq_str(s) for s in l])) for p, l in ret.items()]),
+        cq_list(["(%s, %s)" % (cq_str(f), cq_list([cq_str(s) for s in l])) for f, l in fmt.items()]),
+        cq_elem(elem),
+        cq_list(["(%s, %s)" % (cq_option(None if v is NP else cq_json(v)), cq_json(o)) for v, o in vals_obs]),
+    )
+
+
+def run_ecases(cases, tag="ec"):
+    return eval_codes(["Elem", "Validate", "RunElem"], "run_elem_case", cases, tag=tag, shard=120)
